@@ -331,8 +331,13 @@ class Run:
             print("KNOWN-FINDING: property=%s %s [%s at %s]" % (
                 self.prop, self.known[o["key"]]["what"], o["key"], o["where"]))
         n = 0
+        no_files = bool(os.environ.get("VERIF_NO_EVIDENCE"))
         for o in viol:
             n += 1
+            if no_files:
+                print("  %s: rule %s violated at %s: %s" % (self.prop, o["rule"], o["where"], o["detail"]))
+                print("VIOLATION property=%s replay=<not written: VERIF_NO_EVIDENCE>" % self.prop)
+                continue
             slug = re.sub(r"[^A-Za-z0-9_.-]+", "_", o["key"])[:120]
             rp = os.path.join(VERIF, "replay", "%s-%s.json" % (self.prop, slug))
             with open(rp, "w") as fh:
@@ -382,7 +387,7 @@ class Run:
             "wall_s": round(time.time() - self.t0, 2),
             "violations": len(viol),
         }
-        if self.replay_filter is None:
+        if self.replay_filter is None and not no_files:
             with open(os.path.join(VERIF, "evidence", "%s.json" % self.prop), "w") as fh:
                 json.dump(ev, fh, indent=1)
         print("%s [%s]: %d obligations, %d discharged, %d known findings, %d violations (%.1fs)" % (
